@@ -247,7 +247,7 @@ impl ParamCurveArclen for QuadBez {
         let a = d2.hypot2();
         let d1 = self.p1 - self.p0;
         let c = d1.hypot2();
-        if a < 5e-4 * c {
+        if a <= 5e-4 * c {
             // This case happens for nearly straight Béziers.
             //
             // Calculate arclength using Legendre-Gauss quadrature using formula from Behdad
